@@ -12,8 +12,9 @@ MAX_SHARDS = 8
 RULE = ('the real create_linear_distribution is called under an icontract postcondition (length n, all weights > 0, |sum-1| <= '
         '1e-9, equal consecutive differences and last = s * first, both to relative 1e-9, n=1 -> [1.0]) for n in 1..200 '
         '(thorough: 1..1500 plus 10^4 and 10^5) x a grid of 64 skews from 0.001 to 10^6 including exactly 1, values < 1 and '
-        'non-representable decimals, plus random (n, s); the same postcondition passively watches every call made by the '
-        'generator workloads of C08/C09/C12; non-trivial = distinct (n, s) with n >= 2; evaluations = calls')
+        'non-representable decimals, plus random (n, s); a draw-site tap on numpy.random.choice checks the vector actually used for drawing in '
+        'sequences of Generator runs within one process (same n, different skews and types); the postcondition also passively '
+        'watches every call made by the generator workloads of C08/C09/C12; non-trivial = distinct (n, s) with n >= 2; evaluations = calls')
 ASSUMPTIONS = ['relative tolerance 1e-9 for floating point']
 SKEWS = [0.001, 0.01, 0.05, 0.1, 0.2, 0.25, 0.3, 1 / 3, 0.5, 0.7, 0.9, 0.99, 0.999999, 1, 1.0000001, 1.01, 1.1, 1.25, 1.5,
          1.7, 2, 2.5, 3, 3.3, 4, 5, 6, 7, 7.7, 8, 9, 10, 11, 12.5, 15, 20, 25, 30, 33.3, 40, 50, 64, 75, 99.9, 100,
@@ -53,12 +54,80 @@ def run_shard(ctx):
             ctx.sample({'n': n, 'skew': s, 'weights_head': [float(x) for x in w[:4]], 'weights_last': float(w[-1])}, cap=3)
         lc.harvest_contracts(ctx, case)
     lc.harvest_contracts(ctx, {})
+    draw_site_workload(ctx)
+
+
+def weights_problem(w, n, s):
+    if len(w) != n:
+        return 'length %d != n=%d' % (len(w), n)
+    if any(not (x > 0) for x in w):
+        return 'non-positive weight'
+    if abs(sum(w) - 1.0) > 1e-9:
+        return 'weights sum to %r' % sum(w)
+    if n >= 2:
+        d = [w[i + 1] - w[i] for i in range(n - 1)]
+        if max(d) - min(d) > 1e-9 * max(w):
+            return 'not an arithmetic progression'
+        if abs(w[-1] - s * w[0]) > 1e-9 * max(w[-1], s * w[0]):
+            return 'last/first = %r, requested skew %r' % (w[-1] / w[0], s)
+    return None
+
+
+def draw_site_workload(ctx):
+    """Observability at the draw site: sequences of Generator runs in ONE process
+    (same number of rankable agents, different skews and problem types); the
+    probability vector handed to numpy.random.choice for every preference list
+    must be the progression for the skew requested in THAT run."""
+    from .. import genengine as ge
+    from ..taps import CHOICE
+    CHOICE.install()
+    rng = random.Random(ctx.seed * 7919 + ctx.shard)
+    nseq = 25 if ctx.tier == 'quick' else 400
+    for q in range(nseq):
+        n2 = rng.randint(1, 9)
+        for step in range(3):
+            mp = rng.choice(['ha', 'sm', 'hr', 'spa'])
+            v = ge.legal_vector(rng, mp=mp, max_n1=6, max_n2=9, max_n3=4)
+            if mp == 'sm':
+                v['n1'] = n2
+            else:
+                v['n2'] = n2
+                v['uq'] = n2 + rng.randint(0, 3)
+                v.pop('lq', None)
+            v['pmin'] = rng.randint(1, n2)
+            v['pmax'] = rng.randint(v['pmin'], n2)
+            v['skew'] = rng.choice([None, 0.2, 0.5, 1.0, 2.0, 5.0, 50.0, 3.3])
+            v['numinst'] = 1
+            outdir = ge.fresh_outdir(ctx.workdir, 'c17')
+            argv = ge.to_argv(v, outdir, rng)
+            CHOICE.start()
+            res = ge.run_generator(argv, rng.randint(0, 10 ** 6))
+            recs = CHOICE.stop()
+            ctx.cnt('generator_runs_with_draw_site_tap')
+            if res['exit'] is not None or res['exc'] is not None:
+                ctx.cnt('draw_site_unobservable_generator_failed')
+                continue
+            s = 1.0 if v['skew'] is None else v['skew']
+            case = {'draw_site': True, 'sequence': q, 'step': step, 'argv': [a if a != outdir else '<outdir>' for a in argv]}
+            for w in recs:
+                ctx.cnt('draw_site_vectors_judged')
+                bad = weights_problem(w, n2, s)
+                if bad:
+                    ctx.finding({'prop': 'C17', 'monitor': 'draw_site_weights', 'msg': 'run %d of a sequence in one process (%s, %d rankable '
+                                 'agents, skew %r): the weights handed to the draw are wrong: %s (weights %s)' % (
+                                     step + 1, mp, n2, s, bad, [round(x, 5) for x in w[:6]])}, case)
+                    break
+            if step > 0:
+                ctx.nontrivial('seq/%d/%d/%d/%r' % (ctx.shard, q, step, s))
+    lc.harvest_contracts(ctx, {})
 
 
 def replay(w, ctx):
     lc.contracts_on(ctx)
     import matchingproblems.generator.generator_shared as gs
     c = w['case']
+    if c.get('draw_site'):
+        return draw_site_workload(ctx)
     gs.create_linear_distribution(c['n'], c['skew'])
     lc.harvest_contracts(ctx, c)
 
@@ -69,6 +138,8 @@ def floors(m, tier):
     need = 15000 if tier == 'quick' else 130000
     if c.get('contract_evals_create_linear_distribution', 0) < need:
         out.append('contract on create_linear_distribution evaluated only %d times' % c.get('contract_evals_create_linear_distribution', 0))
+    if c.get('draw_site_vectors_judged', 0) < (500 if tier == 'quick' else 8000):
+        out.append('draw-site tap judged only %d weight vectors' % c.get('draw_site_vectors_judged', 0))
     for k in ('n_equals_1', 'skew_lt_1', 'skew_eq_1', 'skew_gt_1'):
         if m['cover'].get(k, 0) == 0:
             out.append('class %s never observed' % k)
